@@ -550,6 +550,7 @@ class CopyIndependence(BoundedCheck):
         if kind == 'mixin':
             muts += [('aliases', lambda o: o.aliases.__setitem__('inc', 'Y')), ('preferred', lambda o: o.preferred_names.append('cons')),
                      ('trace-names', lambda o: (o.solve_t(1, trace=True, failures='ignore', max_iter=2), o.trace[1].names.append('zz'))),
+                     ('trace-values-in-place', lambda o: [tr.values.__setitem__((0, 0), -123.0) for tr in o.trace if not tr.is_empty()][:1] or o.solve_t(1, trace=True, failures='ignore', max_iter=2)),
                      ('traced-solve', lambda o: o.solve_t(2, trace=True, failures='ignore', max_iter=3))]
         return muts
 
@@ -699,6 +700,7 @@ class Reindex(BoundedCheck):
                 for target in ('container', 'model'):
                     yield {'span': 'range', 'new': new, 'new_kind': kind, 'fills': {}, 'strict': None, 'target': target}
         yield {'span': 'range', 'new': [1, 2, 3, 4], 'fills': {}, 'strict': None, 'target': 'pandas-mixin'}
+        yield {'span': 'range', 'new': [1, 2, 3, 4], 'fills': {'K': 7, 'Y': 2.5}, 'strict': None, 'target': 'pandas-mixin', 'per_variable': True}
         for st_obj in (True, False):
             for st_arg in (None, True, False):
                 yield {'span': 'range', 'new': [1, 2, 3, 4], 'fills': {'nosuch': 1}, 'strict': st_arg, 'target': 'pandas-mixin', 'object_strict': st_obj}
@@ -739,6 +741,12 @@ class Reindex(BoundedCheck):
                 if raised != bool(eff):
                     out.append(Violation('unknown variables in the fill keywords are rejected only under strict (pandas extension)', 'c12.pandas-mixin-strict', case,
                                          'KeyError' if eff else 'accepted', 'KeyError' if raised else 'accepted'))
+                return out
+            if case.get('per_variable'):
+                r = m.reindex(new, **case['fills'])
+                if r.K.tolist() != [3, 3, 3, 7] or r.Y.tolist()[-1] != 2.5:
+                    out.append(Violation('each new period holds the per-variable keyword if given (pandas-based reindex)', 'c12.pandas-mixin-per-variable-fill', case,
+                                         [[3, 3, 3, 7], 2.5], [r.K.tolist(), r.Y.tolist()[-1]], 'fill'))
                 return out
             r = m.reindex(new)
             if r.K.tolist() != [3, 3, 3, 0]:
